@@ -395,17 +395,23 @@ func (c *Ctx) c10Pair(n, size int) {
 	}
 }
 
-// An empty line strip has zero primitives (PrimitiveCount() reports len(indices)-1 = -1 for it): the sequential scan
-// calls back zero times, so the parallel scan must too.  Own op name so that a finding here is identifiable.
+// Corpus witness (runs first): an empty line strip.  Before /repo commit 9e6522a PrimitiveCount() reported -1 for it and the
+// parallel scan with pool size s >= 3 called back with indices -(s-1) .. -2 while the sequential scan calls back zero times.
+// It has zero primitives, so the ordinary oracle applies: the visit multiset must be {0..n-1} with n = 0, i.e. empty.
 func (c *Ctx) c10EmptyStrip(size int) {
-	c.Note("empty-linestrip")
+	c.Note("corpus:empty-linestrip")
 	m := modeling.EmptyMesh(modeling.LineStripTopology)
+	name := "ScanPrimitivesParallelWithPoolSize/LineStripTopology"
+	n := m.PrimitiveCount()
 	par, res := c10ScanPrims(m, size, true)
 	if res == "panic" {
-		c.Emit("c10.holds.visits_exact_emptystrip", "0 1 panic", "true")
+		c.Emit("c10.visits", fmt.Sprintf("%s %d %d", name, n, size), "panic")
 		return
 	}
-	c.Emit("c10.holds.visits_exact_emptystrip", strings.TrimSpace(fmt.Sprintf("0 %d %s", len(par.items), strings.Join(par.indices(), " "))), "true")
+	c.Emit("c10.visits", fmt.Sprintf("%s %d %d", name, n, size), c10Join("none", par.indices()))
+	c10VisitsExact(c, 0, par.indices())
+	seq, _ := c10ScanPrims(m, size, false)
+	c10SameOutput(c, seq.tokens(), par.tokens())
 }
 
 func runC10(c *Ctx) {
